@@ -101,6 +101,47 @@ func c04GenSpec(r *core.R, w *c04World) *c04Spec {
 	}
 	for attempt := 0; attempt < 8; attempt++ {
 		switch k := r.Intn(20); {
+		case k < 2: // the cells around a point feature: the cell it falls in, or cells that merely touch it
+			if len(w.Built) == 0 {
+				continue
+			}
+			b := w.Built[0]
+			var cands []int
+			for i, f := range b.Feats {
+				if f.ID.Type == b6.FeatureTypePoint && !f.DontCare {
+					cands = append(cands, i)
+				}
+			}
+			if len(cands) == 0 {
+				continue
+			}
+			f := b.Feats[core.Pick(r, cands)]
+			g, ok := f.F.(b6.Geometry)
+			if !ok {
+				continue
+			}
+			cell := s2.CellFromPoint(g.Point()).ID().Parent(r.Range(6, 22))
+			var ids []s2.CellID
+			how := "around"
+			switch r.Intn(3) {
+			case 0:
+				ids = []s2.CellID{cell.EdgeNeighbors()[r.Intn(4)]}
+				how = "an edge neighbour of the cell"
+			case 1:
+				for _, n := range cell.AllNeighbors(cell.Level()) {
+					ids = append(ids, n)
+				}
+				how = "all neighbours of the cell"
+			default:
+				ids = []s2.CellID{cell}
+				how = "the cell"
+			}
+			cells := make([]s2.Cell, len(ids))
+			for i, id := range ids {
+				cells[i] = s2.CellFromCellID(id)
+			}
+			q := c05Query{Kind: "cells", Desc: fmt.Sprintf("cells(%s: %s of %s)", c04CellsDesc(ids), how, f.ID), Q: b6.IntersectsCells{Cells: cells}, cells: cells}
+			return c04FromC05(q)
 		case k < 11: // a region anchored at a site
 			site := core.Pick(r, sc.Sites)
 			qs := c05GenOneQuery(r, site.Scene, site.Gens, site.Gens)
